@@ -90,6 +90,24 @@ class Client(threading.Thread):
                 self.out.update(status="ok", result=v if isinstance(v, str) else json.dumps(v))
                 return
             p = jsonrpc.ServerProxy(self.url, version=self.ver)
+            if self.kind == "rawid":
+                # hand-written ids (a string of its own, then 0 twice): every reply is the one to that very request
+                def ask(rid, method):
+                    body = {"jsonrpc": "2.0", "id": rid, "method": method, "params": [self.token]}
+                    if self.ver == 1.0:
+                        del body["jsonrpc"]
+                    return json.loads(p("transport").request(p._ServerProxy__host, "/", json.dumps(body)))
+                got = []
+                for rid, method in ((self.token, "restricted"), (0, "restricted"), (0, "nope_" + self.token), (0, "echo"), (False, "restricted")):
+                    r = ask(rid, method)
+                    rid_back = r.get("id", "<absent>") if isinstance(r, dict) else "<not an object>"
+                    same = type(rid_back) is type(rid) and rid_back == rid
+                    answered = isinstance(r, dict) and ((method == "echo" and r.get("result") == self.token) or (method != "echo" and isinstance(r.get("error"), dict)))
+                    if not (same and answered):
+                        got.append("%s(id=%r)->id=%r%s" % (method, rid, rid_back, "" if answered else ",wrong-kind"))
+                v = self.token if not got else "foreign-or-lost-id:" + ";".join(got)
+                self.out.update(status="ok", result=v)
+                return
             if self.kind == "call":
                 v = p.echo(self.token)
             elif self.kind == "slow":
@@ -103,9 +121,9 @@ class Client(threading.Thread):
                 mc.echo(self.token + "#2")
                 r = mc()
                 v = r[0] if (r[0] + "#2") == r[1] else "batch-mismatch:%s/%s" % (r[0], r[1])
-            elif self.kind == "fail":
+            elif self.kind in ("fail", "failhard"):
                 try:
-                    p.boom(self.token)
+                    (p.boom if self.kind == "fail" else p.boomhard)(self.token)
                     v = "no-error"
                 except jsonrpc.ProtocolError:
                     v = p.echo(self.token)
@@ -143,6 +161,16 @@ def run_word(word, cls, transport, poolcfg, rnd, rundir, counter):
     def boom(tok):
         count("boom:" + tok)
         raise RuntimeError("failing method " + tok)
+
+    def boomhard(tok):
+        # a method that fails with something that is not an Exception subclass (a stray sys.exit() in user code)
+        count("boom:" + tok)
+        raise SystemExit("failing method " + tok)
+    denied = jsonrpclib.Fault(-32001, "access denied")       # an application constant returned by a method
+
+    def restricted(tok):
+        count("restricted:" + tok)
+        return denied
     cfg = jsonrpclib.config.Config(version=rnd.choice([1.0, 2.0]))
     pool = None
     pool_id = 0
@@ -163,7 +191,7 @@ def run_word(word, cls, transport, poolcfg, rnd, rundir, counter):
         srv = PooledJSONRPCServer(addr, **kw)
     else:
         srv = SimpleJSONRPCServer(addr, **kw)
-    for fn, name in ((echo, "echo"), (slow, "slow"), (note, "note"), (boom, "boom")):
+    for fn, name in ((echo, "echo"), (slow, "slow"), (note, "note"), (boom, "boom"), (boomhard, "boomhard"), (restricted, "restricted")):
         srv.register_function(fn, name)
     accepted = [0]
     orig_pr = srv.process_request
@@ -185,7 +213,7 @@ def run_word(word, cls, transport, poolcfg, rnd, rundir, counter):
             batch = []
             for _ in range(rnd.randint(1, 5)):
                 counter[0] += 1
-                c = Client(url, "tok-%d" % counter[0], rnd.choice(["call", "call", "slow", "notify", "batch", "invalid", "fail", "truncated"]), rnd.choice([1.0, 2.0]))
+                c = Client(url, "tok-%d" % counter[0], rnd.choice(["call", "call", "slow", "notify", "batch", "invalid", "fail", "truncated", "failhard", "rawid"]), rnd.choice([1.0, 2.0]))
                 batch.append(c)
                 c.start()
             for c in batch:
@@ -238,6 +266,7 @@ def run_word(word, cls, transport, poolcfg, rnd, rundir, counter):
         o["execs2"] = execs.get(c.token + "#2", 0)
         o["note"] = execs.get("note:" + c.token, 0)
         o["boom"] = execs.get("boom:" + c.token, 0)
+        o["restricted"] = execs.get("restricted:" + c.token, 0)
         o["done"] = not c.is_alive()
         replies.append(o)
     if not closed_ops:
